@@ -266,9 +266,10 @@ def sorting_alphabet(N):
         for rev in (0, 1):
             A.append(act("ChSort", n=n, key=key, rev=rev))
             A.append(act("ChSort", n=n, key=key, rev=rev, via=1))
-    for key in (0, 2, 3):
+    for key in (0, 2, 3, 4):
         A.append(act("ChRemoveAll", n=n, key=key))
         A.append(act("ChRemoveAll", n=n, key=key, via=1))
+        A.append(act("ChRemoveAll", n=n, key=key, via=2))
     return A
 
 
